@@ -119,6 +119,11 @@ impl From<Option<VcfGenotype>> for genotype::Result {
                     },
                     _ => genotype::Result::Skipped(genotype::Skipped::Missing),
                 },
+                // A lone missing allele is how the missing value `.` reads from BCF; plain VCF input
+                // never gets here since `.` is no genotype at all, so treat both alike
+                [a] if a.position().is_none() => {
+                    genotype::Result::Skipped(genotype::Skipped::Missing)
+                }
                 _ => genotype::Result::Error(genotype::Error::PloidyError),
             },
             None => genotype::Result::Skipped(genotype::Skipped::Missing),
